@@ -67,12 +67,12 @@ def py_write(mods, table, dlm, policy, linesep, encoding):
     return res
 
 
-def py_read(mods, text, dlm, policy, encoding):
+def py_read(mods, text, dlm, policy, encoding, chunk_size=1024):
     if encoding is None:
         stream = io.StringIO(text, newline='')
     else:
         stream = io.BytesIO(text.encode(encoding))
-    got, _ = run_reader(mods, stream, encoding, dlm, policy, 0, False, 1024)
+    got, _ = run_reader(mods, stream, encoding, dlm, policy, 0, False, chunk_size)
     return got
 
 
@@ -126,6 +126,23 @@ def _replay(cases):
                     sigs.append(dict(base, what='read back', enc=str(enc), got=got, want=exp))
                 elif case['representable'] and got['recs'] != [ss(r) for r in case['expected']]:
                     sigs.append(dict(base, what='representable table did not round-trip', enc=str(enc), got=got['recs']))
+                # the written text read back through a small buffer as well: every line separator must also be recognised when it falls on
+                # the last character of the reader's buffer (a CR there needs the one-character look-ahead), "whatever line separator is used"
+                if not sigs and want_text:
+                    cs = 1 + (len(want_text) + len(T)) % 3
+                    got2 = py_read(mods, w['text'], dlm, pol, enc, chunk_size=cs)
+                    runs += 1
+                    if got2 != got:
+                        sigs.append(dict(base, what='read back through a buffer of %d characters differs from the whole read' % cs, enc=str(enc), got=got2, want=got))
+            elif enc is None and want_text:
+                # a text stream without newline translation (the bytes paths go through TextIOWrapper, which turns CR and CRLF into LF before
+                # the reader sees them): whole read against a read through a buffer of 1..3 characters
+                cs = 1 + (len(want_text) + len(T)) % 3
+                gw = py_read(mods, w['text'], dlm, pol, None)
+                gs = py_read(mods, w['text'], dlm, pol, None, chunk_size=cs)
+                runs += 2
+                if gs != gw:
+                    sigs.append(dict(base, what='text stream read back through a buffer of %d characters differs from the whole read' % cs, enc='None', got=gs, want=gw))
         out.append((runs, sigs[:3]))
     return out
 
